@@ -123,6 +123,14 @@ func runWriter(c WCase) *vk.Violation {
 			if e := w.Error(); e != nil {
 				return vk.Violf("Writer/unexpected-error", c, "step %d (%s): Error() = %v although the model accepts the operation", i, op.K, e)
 			}
+			if w.Written() != len(model) || w.Len() != len(model) {
+				return vk.Violf("Writer/count", c, "step %d (%s): Written()=%d Len()=%d, model has %d octets", i, op.K, w.Written(), w.Len(), len(model))
+			}
+			// the full images are compared after every step while the packet is small; for large ones (the
+			// comparison is linear in the size) after the step that made it large, every 8th step and at the end
+			if len(model) > 4096 && i%8 != 0 && i != len(c.Ops)-1 && len(s) < 1000 {
+				continue
+			}
 			b, err := w.Bytes()
 			if err != nil || !bytes.Equal(b, model) {
 				return vk.Violf("Writer/Bytes", c, "step %d (%s): Bytes() = %x, %v; model %x", i, op.K, b, err, model)
@@ -414,9 +422,9 @@ func hexGen(maxLen int, nulFree bool) *rapid.Generator[string] {
 			lo = 1
 		}
 		var b []byte
-		if cls := rapid.IntRange(0, 11).Draw(t, "long"); cls == 0 {
+		if cls := rapid.IntRange(0, 35).Draw(t, "long"); cls <= 2 {
 			b = rapid.SliceOfN(rapid.ByteRange(lo, 255), 0, maxLen).Draw(t, "s")
-		} else if cls == 1 && maxLen >= 300 {
+		} else if cls == 3 && maxLen >= 300 {
 			// around and beyond 255/256 and larger: sizes no PDU field reaches
 			n := rapid.SampledFrom([]int{254, 255, 256, 257, 511, 512, 1000, 4095, 4096, 4097, 32767, 32768, 32769, 65535, 65536, 66000}).Draw(t, "biglen")
 			b = bytes.Repeat([]byte{byte(0x41 + n%20)}, n)
